@@ -27,7 +27,7 @@ ID = 'C07'
 LEVEL = 'fault_enumeration'
 CLASSES = [('cuts_writer', 4), ('cuts_foreign', 4), ('crash', 1),
            ('overtake', 1), ('length', 3)]
-TIERS = {'quick': {'runs': 640, 'chunk': 10, 'budget_s': 40.0},
+TIERS = {'quick': {'chunk': 10, 'budget_s': 25.0},
          'thorough': {'chunk': 40}}
 RULE = ('per generated file (writer- or foreign-produced) EVERY cut point '
         '0..len(file) is read (complete sweep per file), plus producer '
